@@ -22,6 +22,7 @@ SPEC = dict(
         ("PrequentialError", "_cumulative_instances"): NUM,
         ("PrequentialError", "cumulative_error"): NUM,
         ("PrequentialError", "_alpha"): NUM,
+        ("SampleInfo", "independent_bound_condition"): NUM,
     },
     param_types={
         ("*", "*", "kwargs"): "skip",
@@ -39,6 +40,8 @@ SPEC = dict(
         ("*", "_check_mean_increase", "m"): INT, ("*", "_check_mean_decrease", "m"): INT,
         ("*", "_check_mean_increase", "alpha"): NUM, ("*", "_check_mean_decrease", "alpha"): NUM,
         ("*", "hoeffding_error_bound", "num_values"): INT, ("*", "update_cut_point", "epsilon_z"): NUM,
+        ("*", "__init__", "lambda_"): NUM, ("*", "update_stats", "value"): NUM, ("*", "update_stats", "alpha"): NUM,
+        ("SampleInfo", "update", "value"): NUM,
     },
     layouts={
         "CUSUM": _cusum_layout("CUSUMConfig"),
@@ -50,10 +53,14 @@ SPEC = dict(
                    ("_additional_vars.test_type", obj("HoeffdingOneSidedTest")), ("_additional_vars.warning", BOOL)],
         "HDDMA2": [("_config", obj("HDDMAConfig")), ("_num_instances", INT), ("drift", BOOL),
                    ("_additional_vars.test_type", obj("HoeffdingTwoSidedTest")), ("_additional_vars.warning", BOOL)],
+        "HDDMW1": [("_config", obj("HDDMWConfig")), ("_num_instances", INT), ("drift", BOOL),
+                   ("_additional_vars.test_type", obj("McDiarmidOneSidedTest")), ("_additional_vars.warning", BOOL)],
+        "HDDMW2": [("_config", obj("HDDMWConfig")), ("_num_instances", INT), ("drift", BOOL),
+                   ("_additional_vars.test_type", obj("McDiarmidTwoSidedTest")), ("_additional_vars.warning", BOOL)],
         "ECDDWT": [("_config", obj("ECDDWTConfig")), ("_num_instances", INT), ("drift", BOOL), ("_additional_vars.p", obj("Mean")),
                    ("_additional_vars.z", obj("EWMA")), ("_additional_vars.warning", BOOL), ("_lambda_div_two_minus_lambda", NUM)],
     },
-    aliases={"HDDMA1": "HDDMA", "HDDMA2": "HDDMA"},  # one class, two layouts: test_type is a One- or a TwoSided test object
+    aliases={"HDDMA1": "HDDMA", "HDDMA2": "HDDMA", "HDDMW1": "HDDMW", "HDDMW2": "HDDMW"},  # one class, two layouts: test_type is a One- or a TwoSided test object
     elt={"AccuracyQueue": BOOL},
     ctor_elt={("CircularMean", "CircularQueue"): NUM},
     skip_fields={"name"},
@@ -76,6 +83,7 @@ UNITS = [
     ("DDM", "_update"), ("DDM", "reset"),
     ("ECDDWT", "_update"), ("ECDDWT", "reset"),
     ("HDDMA1", "_update"), ("HDDMA1", "reset"), ("HDDMA2", "_update"), ("HDDMA2", "reset"),
+    ("HDDMW1", "_update"), ("HDDMW1", "reset"), ("HDDMW2", "_update"), ("HDDMW2", "reset"),
 ]
 
 # property -> equivalence files compiled against the freshly generated GSrc.v
@@ -85,7 +93,7 @@ EQ = {
     "C19": ["EqStats.v", "EqConfig.v"],
     "C02": ["EqStats.v", "EqCusum.v", "EqSPC.v"],
     "C03": ["EqStats.v", "EqSPC.v"],
-    "C04": ["EqStats.v", "EqHDDM.v"],
+    "C04": ["EqStats.v", "EqHDDM.v", "EqHDDMW.v"],
 }
 
 
